@@ -134,6 +134,9 @@ pub fn dedent(s: &str) -> String {
         }
     }
 
+    #[cfg(feature = "verif-hooks")]
+    crate::verif::emit("dedent.margin", &[crate::verif::n(prefix.len())]);
+
     // We now go over the lines a second time to build the result.
     let mut result = String::new();
     for line in s.lines() {
